@@ -642,6 +642,15 @@ class PteraTransformer(NodeTransformer):
                 body = body[1:]
 
         new_body += self.visit_body(node.body)
+        if self.should_instrument("#value"):
+            # Falling off the end of the function returns None
+            new_body.append(
+                ast.Return(
+                    value=self._interact(
+                        "#value", None, None, ast.Constant(value=None), True
+                    )
+                )
+            )
         new_body = self.delimit(
             new_body,
             ["#enter"],
